@@ -245,16 +245,50 @@ func r14cRunner(c *Check, rule string, ex *execAnchors) {
 			break
 		}
 	}
-	cc := callsNamed(rn, "os/exec.CommandContext")
-	plain := callsNamed(rn, "os/exec.Command")
+	// the runner and the private helpers it was split into (the construction of the exec.Cmd)
+	region := regionOf(c, rn)
+	var cc, plain []ssa.CallInstruction
+	for f := range region {
+		cc = append(cc, callsNamed(f, "os/exec.CommandContext")...)
+		plain = append(plain, callsNamed(f, "os/exec.Command")...)
+	}
 	okCC := len(cc) == 1 && len(plain) == 0
 	if okCC {
-		okCC = false
-		for _, o := range engine.Origins(cc[0].Common().Args[0]) {
-			if o == ctxParam {
-				okCC = true
+		// the context handed to CommandContext is the runner's context parameter, possibly passed down
+		// through the helper's own context parameter
+		var isRunnerCtx func(v ssa.Value, in *ssa.Function, d int) bool
+		isRunnerCtx = func(v ssa.Value, in *ssa.Function, d int) bool {
+			for _, o := range engine.Origins(v) {
+				if o == ctxParam {
+					return true
+				}
+				p, isParam := o.(*ssa.Parameter)
+				if !isParam || in == rn || d > 2 {
+					continue
+				}
+				idx := -1
+				for i, q := range in.Params {
+					if q == p {
+						idx = i
+					}
+				}
+				sites := c.G.CallersOf(in)
+				if idx < 0 || len(sites) == 0 {
+					continue
+				}
+				all := true
+				for _, s := range sites {
+					if idx >= len(s.Common().Args) || !region[engine.TopFunc(s.Parent())] || !isRunnerCtx(s.Common().Args[idx], engine.TopFunc(s.Parent()), d+1) {
+						all = false
+					}
+				}
+				if all {
+					return true
+				}
 			}
+			return false
 		}
+		okCC = isRunnerCtx(cc[0].Common().Args[0], engine.TopFunc(cc[0].Parent()), 0)
 	}
 	pos := c.P.Pos(rn.Pos())
 	if len(cc) > 0 {
@@ -263,7 +297,7 @@ func r14cRunner(c *Check, rule string, ex *execAnchors) {
 	c.Require(okCC, rule, "command-context/"+c.P.FuncName(rn), "the shell is started with exec.CommandContext on the runner's context parameter", "the shell is not started with exec.CommandContext on the caller's context: timeouts and cancellation would not stop it", pos)
 	okWD := false
 	for _, st := range storesToField(c, fk("os/exec.Cmd", "WaitDelay")) {
-		if st.Parent() == rn {
+		if region[engine.TopFunc(st.Parent())] {
 			if k, ok := st.Val.(*ssa.Const); ok && k.Value != nil && k.Int64() > 0 {
 				okWD = true
 			}
@@ -281,6 +315,10 @@ func ruleR14d(c *Check, rule string) {
 	fn := ex.OutputChecks
 	fname := c.P.FuncName(fn)
 	runs := callsToFn(c, fn, ex.RunCommand)
+	if len(runs) == 0 {
+		// the loop body was extracted: the call in the loop is the call of the helper that runs the command
+		runs = sitesReaching(c, fn, fnSet(ex.RunCommand))
+	}
 	if len(runs) == 0 {
 		c.Unknown(rule, "checks-loop/"+fname, "no command call in the check runner", "-")
 		return
@@ -307,6 +345,16 @@ func ruleR14d(c *Check, rule string) {
 	// mismatch comparison: an `ne` atom between values derived from ExpectedOutput and from the command output, leading only to failure
 	found := false
 	okCmp := true
+	// when the loop body was extracted, the comparison sits next to the command call, in the helper
+	if len(callsToFn(c, fn, ex.RunCommand)) == 0 {
+		if call, ok := runs[0].(*ssa.Call); ok {
+			if h := call.Call.StaticCallee(); h != nil && len(callsToFn(c, h, ex.RunCommand)) > 0 {
+				fn = h
+				runs = callsToFn(c, h, ex.RunCommand)
+				lp = engine.LoopOf(runs[0])
+			}
+		}
+	}
 	for _, b := range fn.Blocks {
 		for i := range b.Succs {
 			a, ok := engine.EdgeAtom(b, i)
